@@ -219,3 +219,85 @@ def run_events(spec):
                 res[key] = "!%s: %s" % (type(e).__name__, str(e)[:200])
         out.append(res)
     return out
+
+
+def setup_clusters(store_dir, clusters, backend="fs"):
+    import twosigma.memento as m
+    from twosigma.memento.storage_filesystem import FilesystemStorageBackend
+    from twosigma.memento.storage_memory import MemoryStorageBackend
+    cl = {}
+    for i, name in enumerate(clusters):
+        st = MemoryStorageBackend() if backend == "mem" else FilesystemStorageBackend(path=os.path.join(store_dir, "cl%d" % i))
+        cl[name] = m.FunctionCluster(name=name, storage=st)
+    m.Environment.set(m.Environment(name="verif", base_dir=store_dir,
+                                    repos=[m.ConfigurationRepository(name="repo", clusters=cl)]))
+
+
+def _safe(fn):
+    try:
+        return {"ok": fn()}
+    except BaseException as e:  # noqa
+        import traceback
+        tb = traceback.extract_tb(e.__traceback__)
+        where = next(("%s:%s" % (os.path.basename(f.filename), f.name) for f in reversed(tb) if "twosigma" in f.filename), "?")
+        return {"exc": type(e).__name__, "msg": str(e)[:300], "where": where}
+
+
+def run_names(spec):
+    """
+    C12 probes. spec = {"pkg","modules","store","clusters":[...],"backend","segments":[{"init_cells":..}|{"cells":..}],
+                        "probe":[mod, name], "arg": int, "cluster": name|None}
+    Each segment element is one *step*: optional cells, then the probes. -> list of probe results.
+    """
+    import twosigma.memento as m
+    import verif_rt
+    setup_clusters(spec["store"], spec["clusters"], spec.get("backend", "fs"))
+    mods = modules_from_cells(spec["pkg"], spec["modules"], spec["init_cells"])
+    out = []
+    for step in spec["steps"]:
+        for mname, src in step.get("cells", []):
+            exec_cell(mods[mname], src)
+        mname, name = spec["probe"]
+        fn = getattr(mods[mname], name)
+        verif_rt.take()
+        res = {}
+        res["call1"] = _safe(lambda: fn(spec["arg"]))
+        res["trace1"] = verif_rt.take()
+        res["call2"] = _safe(lambda: fn(spec["arg"]))
+        res["trace2"] = verif_rt.take()
+        res["qualified_name"] = _safe(lambda: fn.fn_reference().qualified_name)
+
+        def memento_view():
+            mem = fn.memento(spec["arg"])
+            if mem is None:
+                return None
+            return {"qn": mem.invocation_metadata.fn_reference_with_args.fn_reference.qualified_name,
+                    "invocations": [[r.fn_reference.qualified_name, bool(r.fn_reference.external)] for r in mem.invocation_metadata.invocations],
+                    "deps": sorted([f.qualified_name, bool(f.external)] for f in mem.function_dependencies)}
+        res["memento"] = _safe(memento_view)
+        res["list_mementos"] = _safe(lambda: [x.invocation_metadata.fn_reference_with_args.fn_reference.qualified_name for x in fn.list_mementos()])
+        res["list_functions"] = _safe(lambda: sorted(r.qualified_name for r in m.list_memoized_functions(spec.get("cluster"))))
+        res["parse"] = _safe(lambda: m.FunctionReference.parse_qualified_name(fn.fn_reference().qualified_name))
+        if spec.get("fnarg"):
+            # a stored entry whose *arguments* contain a memento function that may later vanish
+            fa = getattr(mods["a"], "fa")
+            callee = getattr(mods["a"], spec["fnarg"], None)
+            if len(out) == 0 and callee is not None and spec.get("fnarg_store", True):
+                res["fnarg_call"] = _safe(lambda: fa(callee, spec["arg"]))
+
+            def fa_view():
+                view = []
+                for mem in fa.list_mementos():
+                    r = mem.invocation_metadata.fn_reference_with_args
+                    a0 = (list(r.args) + [r.kwargs.get("fn_arg")])[0]
+                    ref = a0.fn_reference() if hasattr(a0, "fn_reference") else None
+                    view.append([r.fn_reference.qualified_name, ref.qualified_name if ref else repr(a0), bool(ref.external) if ref else None])
+                return view
+            res["fnarg_list"] = _safe(fa_view)
+        res["versions"] = {}
+        for mn, mod in mods.items():
+            for k, v in list(vars(mod).items()):
+                if hasattr(v, "fn_reference") and hasattr(v, "fn") and not k.startswith("_"):
+                    res["versions"]["%s.%s" % (mn, k)] = _safe(lambda v=v: v.fn_reference().qualified_name)
+        out.append(res)
+    return out
